@@ -143,6 +143,23 @@ class PartialSweep(Exception):
         self.ln = ln
 
 
+def mask_candidates(m, q):
+    """integer locals used as `i & v` / `i | v` selectors in the function, with their initialisers (for the report)"""
+    decls = {v['id']: v for v in SX.walk(m.body, into_lambdas=False) if v['k'] == 'var' and v.get('type') in ('unsigned long', 'size_t')}
+    out = []
+    for n in SX.walk(m.body, into_lambdas=False):
+        if n['k'] == 'bin' and n['op'] in ('&', '|'):
+            for x in (SX.strip(n['l']), SX.strip(n['r'])):
+                while SX.is_node(x) and x['k'] == 'cast':
+                    x = SX.strip(x['e'])
+                if SX.is_node(x) and x['k'] == 'ref' and x.get('id') in decls and SX.is_node(decls[x['id']].get('init')) and \
+                        any(y['k'] == 'ref' and y.get('id') == q['id'] for y in SX.walk(decls[x['id']]['init'])):
+                    t = '%s = %s' % (x['name'], SX.show(decls[x['id']]['init']))
+                    if t not in out:
+                        out.append(t)
+    return out
+
+
 def analyse_measure_like(prog, m, amp, q, sp, KS, KP):
     """Walk the top-level statements of a measure-shaped function and extract its ingredients."""
     info = {'p1_init_zero': False, 'bit_is_1_shl_q': False, 'dist_ok': False, 'draw_ok': False, 'res_ok': False, 'returns_res': False,
@@ -193,6 +210,10 @@ def analyse_measure_like(prog, m, amp, q, sp, KS, KP):
         elif s['k'] == 'for':
             loops.append(s)
     p1_id = None
+    if not bit_ids:
+        cand = mask_candidates(m, q)
+        if cand:
+            raise PartialSweep('%s: the cells of qubit %s are selected with mask %s, which is not 1 << %s' % (m.short, q['name'], cand, q['name']), m.ln)
     if len(loops) < 2:
         raise AnalysisBroken('%s: expected an accumulation loop and a collapse loop' % m.short)
     l1 = KP.full_state_loop(loops[0], amp)
